@@ -211,3 +211,75 @@ theorem Api_ext {V : Type} (a b : Api V) (h1 : a.ops = b.ops) (h2 : a.pathParams
   cases a; cases b; simp_all
 
 end KinModel.Conv
+
+namespace KinModel.Conv
+
+/-! ### lists, association lists, result monads -/
+
+theorem mapRes_ok {α β : Type} (f : α → Res β) (g : α → β) (l : List α) (h : ∀ a ∈ l, f a = .ok (g a)) :
+    mapRes f l = .ok (l.map g) := by
+  induction l with
+  | nil => rfl
+  | cons a rest ih =>
+    have h1 := h a (by simp)
+    have h2 := ih (fun b hb => h b (by simp [hb]))
+    simp [mapRes, h1, h2]
+
+theorem ainsert_fresh {α : Type} (k : String) (v : α) (l : List (String × α)) (h : alookup k l = none) :
+    ainsert k v l = l ++ [(k, v)] := by
+  induction l with
+  | nil => rfl
+  | cons kv rest ih =>
+    obtain ⟨k', v'⟩ := kv
+    simp only [alookup] at h
+    split at h
+    · simp at h
+    · rename_i hne
+      simp [ainsert, hne, ih h]
+
+theorem alookup_append_none {α : Type} (k : String) (l1 l2 : List (String × α))
+    (h1 : alookup k l1 = none) (h2 : alookup k l2 = none) : alookup k (l1 ++ l2) = none := by
+  induction l1 with
+  | nil => simpa using h2
+  | cons kv rest ih =>
+    obtain ⟨k', v'⟩ := kv
+    simp only [alookup] at h1
+    split at h1
+    · simp at h1
+    · rename_i hne
+      simp [alookup, hne, ih h1]
+
+theorem alookup_map_none {α β : Type} (k : String) (g : α → β) (l : List (String × α)) (h : alookup k l = none) :
+    alookup k (l.map (fun kv => (kv.1, g kv.2))) = none := by
+  induction l with
+  | nil => rfl
+  | cons kv rest ih =>
+    obtain ⟨k', v'⟩ := kv
+    simp only [alookup] at h
+    split at h
+    · simp at h
+    · rename_i hne
+      simp [alookup, hne, ih h]
+
+theorem ainsert_all {α : Type} (P : String → Bool) (k : String) (v : α) (l : List (String × α))
+    (hk : P k = true) (hl : l.all (fun kv => P kv.1) = true) : (ainsert k v l).all (fun kv => P kv.1) = true := by
+  induction l with
+  | nil => simp [ainsert, hk]
+  | cons kv rest ih =>
+    obtain ⟨k', v'⟩ := kv
+    simp only [List.all_cons, Bool.and_eq_true] at hl
+    unfold ainsert
+    split
+    · simp [hk, hl.2]
+    · simp [hl.1, ih hl.2]
+
+theorem mapM_some {α β : Type} (f : α → Option β) (g : α → β) (l : List α) (h : ∀ a ∈ l, f a = some (g a)) :
+    l.mapM f = some (l.map g) := by
+  induction l with
+  | nil => rfl
+  | cons a rest ih =>
+    have h1 := h a (by simp)
+    have h2 := ih (fun b hb => h b (by simp [hb]))
+    simp [List.mapM_cons, h1, h2]
+
+end KinModel.Conv
